@@ -133,7 +133,13 @@ impl<T: FloatT> MatrixMathMut<T> for CscMatrix<T> {
 
 #[allow(non_snake_case)]
 fn _csc_symv_safe<T: FloatT>(A: &CscMatrix<T>, y: &mut [T], x: &[T], a: T, b: T) {
-    y.scale(b);
+    // y = b*y, where b == 0 means that y is overwritten (a plain
+    // multiplication would keep stale non-finite entries: 0*NaN = NaN)
+    if b == T::zero() {
+        y.fill(T::zero());
+    } else {
+        y.scale(b);
+    }
 
     assert!(x.len() == A.n);
     assert!(y.len() == A.n);
@@ -166,7 +172,13 @@ fn _csc_symv_safe<T: FloatT>(A: &CscMatrix<T>, y: &mut [T], x: &[T], a: T, b: T)
 // direct linear solves.
 #[allow(non_snake_case)]
 fn _csc_symv_unsafe<T: FloatT>(A: &CscMatrix<T>, y: &mut [T], x: &[T], a: T, b: T) {
-    y.scale(b);
+    // y = b*y, where b == 0 means that y is overwritten (a plain
+    // multiplication would keep stale non-finite entries: 0*NaN = NaN)
+    if b == T::zero() {
+        y.fill(T::zero());
+    } else {
+        y.scale(b);
+    }
 
     assert!(x.len() == A.n);
     assert!(y.len() == A.n);
